@@ -5,6 +5,7 @@ strategy terms:
   ["mark", id, mode]     mode = "both" | "ser" | "deser"
       SerializationStrategy object (mode both) or a dict with only one direction;
       serialize(v)   -> "S<id>"      deserialize(j) -> MarkedStr("D<id>")   (the marker names the winner)
+  ["shift", id, "both", k]   a lossless strategy for exact ints: serialize v + k, deserialize j - k (ValueError unless type(j) is int)
 """
 from __future__ import annotations
 
@@ -14,11 +15,31 @@ NOCOPY_TYPES = {"list": list, "dict": dict, "set": set, "deque": collections.deq
                 "frozenset": frozenset, "tuple": tuple}
 
 
+def _ser_marker(ident):
+    import datetime
+
+    def ser(v, _i=ident):
+        # markers are registered for date / List[date] / list keys: anything else is not theirs (a union tries the next member)
+        if not isinstance(v, (datetime.date, list)):
+            raise TypeError("marker strategy: not a value of the registered type")
+        return f"S{_i}"
+    return ser
+
+
+def _deser_marker(ident):
+    def deser(j, _i=ident):
+        # null is never a marker's input: Optional[X] handles it before X, and Union[.., X, .., None] hands it to the None member
+        if j is None:
+            raise ValueError("marker strategy: null is not a value of the registered type")
+        return f"D{_i}"
+    return deser
+
+
 def make_callable(st, direction, reg):
     ident = st[1]
     if direction == "ser":
-        return lambda v, _i=ident: f"S{_i}"
-    return lambda v, _i=ident: f"D{_i}"
+        return _ser_marker(ident)
+    return _deser_marker(ident)
 
 
 def make_strategy(st, reg):
@@ -26,15 +47,29 @@ def make_strategy(st, reg):
     from mashumaro.types import SerializationStrategy
     if st[0] == "pass_through":
         return pass_through
+    if st[0] == "shift":
+        k = st[3]
+
+        class Shift(SerializationStrategy):
+            def serialize(self, value, _k=k):
+                if type(value) is not int:
+                    raise TypeError("shift strategy: exact int expected")      # (a union tries the next member)
+                return value + _k
+
+            def deserialize(self, value, _k=k):
+                if type(value) is not int:
+                    raise ValueError("shift strategy: exact int expected")
+                return value - _k
+        return Shift()
     if st[0] == "mark":
         ident, mode = st[1], st[2]
         if mode == "both":
             class Marker(SerializationStrategy):
                 def serialize(self, value, _i=ident):
-                    return f"S{_i}"
+                    return _ser_marker(_i)(value)
 
                 def deserialize(self, value, _i=ident):
-                    return f"D{_i}"
+                    return _deser_marker(_i)(value)
             return Marker()
         if mode == "ser":
             return {"serialize": make_callable(st, "ser", reg)}
